@@ -143,7 +143,8 @@ LastKid(s, f) == s.fr[f].kids[Len(s.fr[f].kids)]
 \* environment's choice of the behaviour of a newly spawned worker (used by the spawn step only).
 \* Return codes in fr.r: 1 = True/ok, 0 = False, 2 = NoSuchProcess was raised, 3 = other exception.
 
-WN(s, i) == s.cfg.ws[i].n
+WN(s, i) == s.cfg.ws[i].n          \* the name as given
+WL(s, i) == s.cfg.ws[i].ln         \* lower-cased (directory key, event topic)
 HasHook(s, i, h) == \E j \in 1..Len(s.cfg.ws[i].hooks) : s.cfg.ws[i].hooks[j].h = h
 HookOf(s, i, h) == s.cfg.ws[i].hooks[CHOOSE j \in 1..Len(s.cfg.ws[i].hooks) : s.cfg.ws[i].hooks[j].h = h]
 BuiltinIgnore == {"before_stop", "after_stop", "before_signal", "after_signal", "extended_stats"}
@@ -169,7 +170,7 @@ P_hook(s, f) ==
                     THEN (IF hc.ig \/ (Dev_BuiltinIgnoreList /\ fr.nm \in BuiltinIgnore) THEN 1 ELSE 0)
                     ELSE (IF hc.o = "true" THEN 1 ELSE 0)
              ev == IF hc.o = "raise" THEN "hook_failure:" \o fr.nm ELSE "hook_success:" \o fr.nm
-         IN Emit(Ret(s, f, res), Line("ev", WN(s, fr.w), 0, 0, "", ev))
+         IN Emit(Ret(s, f, res), Line("ev", WL(s, fr.w), 0, 0, "", ev))
 
 \* ---- the kernel call  psutil.Process.send_signal(sig)  on pid p; returns <<s', result>>
 KSignal(s, p, sig) ==
@@ -213,7 +214,7 @@ P_send_signal_process(s, f) ==
     [] fr.pc = "1" -> Call(s, f, "2", "send_signal", fr.w, fr.p, fr.a, 0)
     [] fr.pc = "2" -> LET r == KidR(s, f) s1 == DropKids(s, f) IN
                       IF r = 2 THEN Goto(s1, f, "3")
-                      ELSE Emit(Goto(s1, f, "3"), Line("ev", WN(s, fr.w), fr.p, 0, "", "kill"))
+                      ELSE Emit(Goto(s1, f, "3"), Line("ev", WL(s, fr.w), fr.p, 0, "", "kill"))
     [] fr.pc = "3" -> IF fr.l = <<>> THEN Ret(s, f, 1)
                       ELSE \* Process.send_signal_child lists the worker's children again
                            IF s.k[fr.p].st = "reaped"
@@ -224,7 +225,7 @@ P_send_signal_process(s, f) ==
                       IF c \in LiveChildren(s, fr.p)
                       THEN Emit(Goto(Deliver(s, c, fr.a, FALSE), f, "5"), Line("csignal", "", c, fr.a, "ok", ""))
                       ELSE Goto(SetL(s, f, Tail(fr.l)), f, "3")
-    [] fr.pc = "5" -> Emit(Goto(SetL(s, f, Tail(fr.l)), f, "3"), Line("ev", WN(s, fr.w), Head(fr.l), 0, "", "kill"))
+    [] fr.pc = "5" -> Emit(Goto(SetL(s, f, Tail(fr.l)), f, "3"), Line("ev", WL(s, fr.w), Head(fr.l), 0, "", "kill"))
 
 \* ---- Popen.poll() on p (reaps); returns <<s', result, wstatus>>; "cached" = no system call
 KPoll(s, p) ==
@@ -244,7 +245,7 @@ P_kill_process(s, f) ==
          ELSE Call(s, f, "1", "send_signal", i, fr.p, fr.a, 0)
     [] fr.pc = "1" -> LET r == KidR(s, f) s1 == DropKids(s, f) IN
                       IF r = 2 THEN Ret(s1, f, 0)
-                      ELSE Emit(Goto(s1, f, "2"), Line("ev", WN(s, i), fr.p, 0, "", "kill"))
+                      ELSE Emit(Goto(s1, f, "2"), Line("ev", WL(s, i), fr.p, 0, "", "kill"))
     [] fr.pc = "1s" -> Goto(DropKids(s, f), f, "2")
     [] fr.pc = "2" -> Goto(SetC(SetStp(s, fr.p, TRUE), f, 0), f, "3")
     [] fr.pc = "3" ->
@@ -313,7 +314,7 @@ P_reap_process(s, f) ==
          IF s.k[p].st = "run" THEN Emit(s, Line("waitpid", "", p, 0, "none", ""))
          ELSE Goto([s EXCEPT !.blocked = 0], f, "2")
     [] fr.pc = "3" ->      \* "reaping already dead process": exit code is Popen.returncode (None if never polled)
-         Emit(Goto(s, f, "3a"), Line("ev", WN(s, i), p, IF s.k[p].rc THEN s.k[p].rcv ELSE 0, "", "reap"))
+         Emit(Goto(s, f, "3a"), Line("ev", WL(s, i), p, IF s.k[p].rc THEN s.k[p].rcv ELSE 0, "", "reap"))
     [] fr.pc = "3a" ->     \* process.stop(): is_alive() -> poll()
          LET kp == KPoll(s, p) IN
          IF kp[2] = "cached" THEN Goto(s, f, "6")
@@ -328,7 +329,7 @@ P_reap_process(s, f) ==
          ELSE Emit(Goto(kp[1], f, "5"), Line("poll", "", p, kp[3], kp[2], ""))
     [] fr.pc = "4t" -> LET kr == KSignal(s, p, SIGTERM) IN
                        Emit(Goto(kr[1], f, "5"), Line("signal", "", p, SIGTERM, kr[2], ""))
-    [] fr.pc = "5" -> Emit(Goto(s, f, "6"), Line("ev", WN(s, i), p, Decode(fr.a), "", "reap"))
+    [] fr.pc = "5" -> Emit(Goto(s, f, "6"), Line("ev", WL(s, i), p, Decode(fr.a), "", "reap"))
     [] fr.pc = "6" -> CallHook(s, f, "7", i, "after_reap", p)
     [] fr.pc = "7" -> Ret(DropKids(s, f), f, 1)
 
@@ -397,13 +398,13 @@ P_spawn_process(s, f, ob) ==
                                                    owner |-> i, stp |-> FALSE, rc |-> FALSE, rcv |-> 0]),
                                   !.faults = IF @ = <<>> THEN @ ELSE Tail(@),
                                   !.fr[f].p = p, !.fr[f].a = NextWid(s, i)]
-              IN Emit(Goto(s1, f, "2p"), Line("spawn", WN(s, i), p, IF ob THEN 1 ELSE 0, "", WN(s, i)))
+              IN Emit(Goto(s1, f, "2p"), Line("spawn", WN(s, i), p, IF ob THEN 1 ELSE 0, "", WL(s, i)))
     [] fr.pc = "2p" -> Goto([s EXCEPT !.ws[i].pr = Append(@, [p |-> fr.p, wid |-> fr.a])], f, "3")
     [] fr.pc = "3" -> CallHook(s, f, "4", i, "after_spawn", fr.p)
     [] fr.pc = "4" -> LET r == KidR(s, f) s1 == DropKids(s, f) IN
                       IF r = 0
                       THEN Call(s1, f, "4d", "kill_process", i, fr.p, s.ws[i].ssig, s.ws[i].G)
-                      ELSE Emit(Ret(s1, f, 1), Line("ev", WN(s, i), fr.p, 0, "", "spawn"))
+                      ELSE Emit(Ret(s1, f, 1), Line("ev", WL(s, i), fr.p, 0, "", "spawn"))
     [] fr.pc = "4d" ->     \* D3: the kill is NOT awaited and the pid is forgotten at once
          LET kid == LastKid(s, f)
              s1 == IF s.fr[kid].done THEN Free(s, {kid}) ELSE [s EXCEPT !.fr[kid].par = 0]
@@ -429,7 +430,7 @@ P_stop(s, f) ==
     [] fr.pc = "1" -> Call(DropKids(s, f), f, "2", "kill_processes", i, 0, -1, -1)
     [] fr.pc = "2" -> Await(s, f, "3")
     [] fr.pc = "3" -> Call(DropKids(s, f), f, "4", "reap_processes", i, 0, 0, 0)
-    [] fr.pc = "4" -> Emit(Goto(DropKids(s, f), f, "5"), Line("ev", WN(s, i), 0, 0, "", "stop"))
+    [] fr.pc = "4" -> Emit(Goto(DropKids(s, f), f, "5"), Line("ev", WL(s, i), 0, 0, "", "stop"))
     [] fr.pc = "5" -> CallHook(SetSt(s, i, "stopped"), f, "6", i, "after_stop", 0)
     [] fr.pc = "6" -> Ret(DropKids(s, f), f, 1)
 
@@ -455,7 +456,7 @@ P_start(s, f) ==
     [] fr.pc = "4s" -> Call(s, f, "4t", "_stop", i, 0, 1, 0)
     [] fr.pc = "4t" -> Await(s, f, "4u")
     [] fr.pc = "4u" -> Ret(DropKids(s, f), f, 1)
-    [] fr.pc = "5" -> Emit(Ret(SetSt(s, i, "active"), f, 1), Line("ev", WN(s, i), 0, 0, "", "start"))
+    [] fr.pc = "5" -> Emit(Ret(SetSt(s, i, "active"), f, 1), Line("ev", WL(s, i), 0, 0, "", "start"))
 
 \* ---- Watcher._restart()
 P_restart(s, f) ==
@@ -497,7 +498,7 @@ P_reload(s, f) ==
                       ELSE Call(SetC(DropKids(s, f), f, fr.c - 1), f, "g", "spawn_process", i, 0, 0, 0)
     [] fr.pc = "g1" -> Await(s, f, "g2")
     [] fr.pc = "g2" -> Goto(DropKids(s, f), f, "9")
-    [] fr.pc = "9" -> Emit(Ret(s, f, 1), Line("ev", WN(s, i), 0, 0, "", "reload"))
+    [] fr.pc = "9" -> Emit(Ret(s, f, 1), Line("ev", WL(s, i), 0, 0, "", "reload"))
 
 \* ---- Watcher.set_numprocesses(np)      fr.a = np
 P_set_numprocesses(s, f) ==
@@ -518,8 +519,15 @@ PrioSort(s, S, desc) ==
                       \/ (IF desc THEN s.cfg.ws[i].prio > s.cfg.ws[j].prio ELSE s.cfg.ws[i].prio < s.cfg.ws[j].prio)
                       \/ (s.cfg.ws[i].prio = s.cfg.ws[j].prio /\ i <= j)
        IN <<best>> \o PrioSort(s, S \ {best}, desc)
-WatcherIdx(s) == { i \in 1..NW(s) : s.ws[i].st # "removed" }
-ByName(s, lname) == { i \in WatcherIdx(s) : WN(s, i) = lname }
+\* The arbiter keeps TWO structures (arbiter.py): the list `watchers` (s.wl: indices, in list order) and the
+\* dict `_watchers_names` keyed by lower-cased name (s.wn: sequence of [k, i]); each is updated separately.
+WatcherIdx(s) == SeqSet(s.wl)
+ByName(s, lname) == { e.i : e \in { x \in SeqSet(s.wn) : x.k = lname } }
+\* observable watchers: the list, then dict-only entries, then watchers that were removed from the directory
+\* but still have workers or an unfinished stop
+DirSeq(s) == LET d == s.wl \o SelectSeq([j \in 1..Len(s.wn) |-> s.wn[j].i], LAMBDA i : i \notin SeqSet(s.wl)) IN
+             d \o SelectSeq([i \in 1..Len(s.ws) |-> i],
+                            LAMBDA i : i \notin SeqSet(d) /\ ~s.ws[i].rel /\ (s.ws[i].pr # <<>> \/ s.ws[i].st # "stopped"))
 
 \* ---- Arbiter._start_watchers()
 P_a_start(s, f) ==
@@ -688,15 +696,17 @@ P_req(s, f) ==
       ws == ByName(s, q.lname)
       i == IF ws = {} THEN 0 ELSE Min(ws) IN
   CASE fr.pc = "0" ->
-         IF q.hasname /\ ws = {} THEN Reply(Goto(s, f, "z"), cid, q.mid, "error", 3)
+         IF q.cmd = "add" THEN Goto(s, f, "d")
+         ELSE IF q.hasname /\ ws = {} THEN Reply(Goto(s, f, "z"), cid, q.mid, "error", 3)
          ELSE IF q.cmd = "list" /\ q.hasname THEN Goto(SetL(s, f, PidSeq(s.ws[i])), f, "rl")
          ELSE IF q.cmd = "stats"
          THEN LET RECURSIVE Cat(_)
                   Cat(is) == IF is = <<>> THEN <<>> ELSE PidSeq(s.ws[Head(is)]) \o Cat(Tail(is))
-                  all == [j \in 1..NW(s) |-> j]
+                  all == s.wl
               IN Goto(SetL(s, f, IF q.hasname THEN PidSeq(s.ws[i]) ELSE Cat(all)), f, "rs")
          ELSE IF q.cmd \in {"status", "numprocesses", "list", "numwatchers", "options"}
          THEN Reply(Goto(s, f, "z"), cid, q.mid, IF q.cmd = "status" /\ q.hasname THEN s.ws[i].st ELSE "ok", 0)
+         ELSE IF q.cmd \in {"add", "rm"} THEN Goto(s, f, "d")
          ELSE IF q.cmd \notin {"incr", "decr", "kill", "signal", "start", "stop", "restart", "reload", "set", "quit"}
          THEN Reply(Goto(s, f, "z"), cid, q.mid, "error", 2)          \* unknown command
          ELSE IF q.cmd \in {"incr", "decr"} /\ s.ws[i].sing THEN Reply(Goto(s, f, "z"), cid, q.mid, "ok", 0)
@@ -729,13 +739,35 @@ P_req(s, f) ==
     [] fr.pc = "g1" -> LET r == KidR(s, f) IN
                        IF r = 3 THEN Reply(Goto(DropKids(s, f), f, "z"), cid, q.mid, "error", 5)
                        ELSE Reply(Goto(DropKids(s, f), f, "z"), cid, q.mid, "ok", 0)
+    [] fr.pc = "d" ->      \* add / rm: Arbiter.add_watcher / rm_watcher, both synchronized
+         IF s.restarting \/ s.slot # "" THEN Reply(GotoZ(s, f, 0), cid, q.mid, "error", 5)
+         ELSE IF q.cmd = "rm"
+         THEN CallN(SetA([s EXCEPT !.slot = "arbiter_rm_watcher"], f, i), f, "x3", "rm", i, 0, IF q.nostop THEN 1 ELSE 0, 0, "")
+         ELSE IF ByName(s, q.lname) # {} THEN Reply(GotoZ(s, f, 0), cid, q.mid, "error", 5)      \* AlreadyExist
+         ELSE IF q.name = ""
+         THEN \* D9: `return ValueError(...)` instead of raise: nothing is added ...
+              IF q.start THEN Reply(GotoZ(s, f, 0), cid, q.mid, "error", 5)      \* ... and .start() on it fails
+              ELSE Reply(GotoZ(s, f, 1), cid, q.mid, "ok", 0)                     \* ... but the reply says ok
+         ELSE IF q.addsing /\ q.addnp > 1 THEN Reply(GotoZ(s, f, 0), cid, q.mid, "error", 5)
+         ELSE LET n == NW(s) + 1
+                  wc == [n |-> q.name, ln |-> q.lname, np |-> q.addnp, G |-> q.addG, W |-> q.addW, sing |-> q.addsing,
+                         resp |-> TRUE, auto |-> TRUE, prio |-> 0, ssig |-> SIGTERM, sch |-> FALSE, hup |-> FALSE,
+                         hooks |-> <<>>, retry |-> 5]
+                  wr == [st |-> "stopped", rel |-> FALSE, np |-> q.addnp, pr |-> <<>>, sing |-> q.addsing, resp |-> TRUE, od |-> FALSE,
+                         G |-> q.addG, W |-> q.addW, ssig |-> SIGTERM, sch |-> FALSE, hup |-> FALSE]
+                  s1 == [s EXCEPT !.cfg.ws = Append(@, wc), !.ws = Append(@, wr), !.wl = Append(@, n),
+                                  !.wn = Append(@, [k |-> q.lname, i |-> n])]
+              IN Emit(Goto(SetA([s1 EXCEPT !.slot = "arbiter_add_watcher"], f, n), f, IF q.start THEN "d2" ELSE "d1"),
+                      Line("ev", q.lname, 0, 0, "", "add"))
+    [] fr.pc = "d1" -> Reply(GotoZ([s EXCEPT !.slot = ""], f, 1), cid, q.mid, "ok", 0)
+    [] fr.pc = "d2" -> CallN([s EXCEPT !.slot = "watcher_start"], f, "x3", "op", fr.a, 0, 0, 0, "start")
     [] fr.pc = "x" ->      \* exclusive commands: util.synchronized
          IF s.restarting \/ s.slot # "" THEN Reply(Goto(s, f, "z"), cid, q.mid, "error", 5)
          ELSE IF q.cmd = "set"
          THEN \* Watcher.set_opt("numprocesses", v): synchronous, releases the slot when it returns
               IF s.ws[i].sing /\ q.nb > 1 THEN Reply(Goto(s, f, "z"), cid, q.mid, "error", 5)
               ELSE Emit(Goto([s EXCEPT !.slot = "watcher_set_opt", !.ws[i].np = IF q.nb < 0 THEN 0 ELSE q.nb],
-                             f, "x2"), Line("ev", WN(s, i), 0, 0, "", "updated"))
+                             f, "x2"), Line("ev", WL(s, i), 0, 0, "", "updated"))
          ELSE CallN([s EXCEPT !.slot = ExclSlot(q)], f, "x3", "op", i, 0,
                     IF q.cmd \in {"incr", "decr"} THEN q.nb ELSE IF q.graceful THEN 1 ELSE 0,
                     IF q.sequential THEN 1 ELSE 0, OpName(q))
@@ -754,7 +786,9 @@ P_req(s, f) ==
                                                                    mid |-> q.mid])]), f, 1)
          ELSE Reply(Goto(IF s.fr[kid].done THEN DropKids(s1, f) ELSE det(s1), f, "z"), cid, q.mid, "ok", 0)
     [] fr.pc = "z" ->      \* handle_message returns (the recorder marks the end of the synchronous handling)
-         IF cid = "" THEN Ret(s, f, 1) ELSE Emit(Ret(s, f, 1), Line("reqend", "", 0, 0, "", cid))
+         LET s1 == IF q.cmd = "rm" /\ q.nostop /\ fr.a >= 1 /\ fr.a \notin SeqSet(s.wl)
+                   THEN [s EXCEPT !.ws[fr.a].rel = TRUE] ELSE s IN      \* released workers leave the observation
+         IF cid = "" THEN Ret(s1, f, 1) ELSE Emit(Ret(s1, f, 1), Line("reqend", "", 0, 0, "", cid))
 
 ---------------------------------------------------------------------------
 \* ====================== the step relation =====================
@@ -763,6 +797,17 @@ P_exit(s, f) ==          \* Arbiter.stop_controller_and_close_sockets
   CASE fr.pc = "0" -> Emit(Goto([s EXCEPT !.exited = TRUE, !.pnext = -1], f, "1"), Line("close", "", 0, 0, "", "ctrl"))
     [] fr.pc = "1" -> Emit(Goto(s, f, "2"), Line("close", "", 0, 0, "", "router"))
     [] fr.pc = "2" -> Emit(Ret(s, f, 1), Line("close", "", 0, 0, "", "pub"))
+
+\* ---- Arbiter.rm_watcher(name, nostop)      fr.a = nostop
+P_rm(s, f) ==
+  LET fr == s.fr[f] i == fr.w IN
+  CASE fr.pc = "0" ->      \* pop from the dict, announce, delete from the list
+         Emit(Goto([s EXCEPT !.wn = SelectSeq(@, LAMBDA e : e.k # WL(s, i))], f, "1"), Line("ev", WL(s, i), 0, 0, "", "remove"))
+    [] fr.pc = "1" -> LET s1 == [s EXCEPT !.wl = SelectSeq(@, LAMBDA j : j # i)] IN
+                      IF fr.a = 1 THEN Ret(s1, f, 1)      \* nostop: the workers are released (see P_req "z")
+                      ELSE Call(s1, f, "2", "_stop", i, 0, 0, 0)
+    [] fr.pc = "2" -> Await(s, f, "3")
+    [] fr.pc = "3" -> Ret(DropKids(s, f), f, 1)
 
 \* ---- Arbiter.start() with a provided loop: synchronized("arbiter_start_watchers")(start_watchers)
 P_boot(s, f) ==
@@ -773,7 +818,8 @@ P_boot(s, f) ==
 
 QuitReq == [cmd |-> "quit", name |-> "", lname |-> "", hasname |-> FALSE, mid |-> "", waiting |-> FALSE,
             cast |-> FALSE, pid |-> -1, signum |-> -1, children |-> FALSE, recursive |-> FALSE, childpid |-> -1,
-            nb |-> 1, G |-> -1, nostop |-> FALSE, graceful |-> TRUE, sequential |-> FALSE, raw |-> FALSE]
+            nb |-> 1, G |-> -1, nostop |-> FALSE, graceful |-> TRUE, sequential |-> FALSE, raw |-> FALSE,
+            start |-> FALSE, addnp |-> 1, addG |-> 1, addW |-> 0, addsing |-> FALSE]
 
 Dispatch(s, f, ob) ==
   LET fn == s.fr[f].fn IN
@@ -805,11 +851,13 @@ Dispatch(s, f, ob) ==
     [] fn = "req" -> P_req(s, f)
     [] fn = "exit" -> P_exit(s, f)
     [] fn = "boot" -> P_boot(s, f)
+    [] fn = "rm" -> P_rm(s, f)
 
 \* the observable projection WITHOUT the pending-activity count (what the recorder compares for "cb" lines)
 ObsCore(s) ==
   [slot |-> s.slot, stopping |-> s.stopping, restarting |-> s.restarting,
-   w |-> [i \in 1..NW(s) |->
+   wl |-> [j \in 1..Len(s.wl) |-> WN(s, s.wl[j])], wn |-> { e.k : e \in SeqSet(s.wn) },
+   w |-> [jj \in 1..Len(DirSeq(s)) |-> LET i == DirSeq(s)[jj] IN
             [n |-> WN(s, i), st |-> s.ws[i].st, np |-> s.ws[i].np,
              pr |-> [j \in 1..Len(s.ws[i].pr) |->
                        <<s.ws[i].pr[j].p, s.ws[i].pr[j].wid, IF s.k[s.ws[i].pr[j].p].stp THEN 1 ELSE 0>>]]],
@@ -897,6 +945,7 @@ AddFault(s, kind) == EnvLine([s EXCEPT !.faults = Append(@, kind)], Line("spawnf
 Boot(s) ==
   LET id == Min(FreeIds(s))
       s1 == [Fresh(s) EXCEPT !.booted = TRUE, !.slot = "arbiter_start_watchers",
+                             !.wn = [j \in 1..Len(s.wl) |-> [k |-> WL(s, s.wl[j]), i |-> s.wl[j]]],
                              !.pnext = IF s.cfg.cd > 0 THEN s.now + s.cfg.cd ELSE -1,
                              !.pdue = s.now + s.cfg.cd,
                              !.fr[id] = [NoFrame EXCEPT !.fn = "boot", !.pc = "0"], !.cur = <<id>>]
